@@ -76,7 +76,7 @@ def one(rec):
     finally:
         p.write_text(text)
     stable_failed = [f for f in failed if is_stable(f)]
-    passes = code == 0 or (code != 124 and failed and not stable_failed)
+    passes = code == 0 or (code == 1 and failed and not any(x.startswith('::') for x in failed) and not stable_failed)
     return dict(rec, suite_exit=code, suite_tail=tail[-120:], failed=failed[:3], passes_suite=bool(passes), wall=round(time.time() - t0, 1))
 
 
